@@ -408,8 +408,9 @@ def rule_attach(ctx):
     ctx.check(ok, "C14.ATTACH", f.short, "stores the callback under its event type on every path", "attach_event_handler does not store the callback under event_handlers[event_type]", fi=f, text="attach-store")
 
 
-# 'exactly one update is published (if the property is enabled)' needs the disabled-property and None-dropping rules
-IMPORTS = [('C07', 'C07.DISABLED'), ('C07', 'C07.BRANCH')]
+# 'exactly one update is published (if the property is enabled)' needs the disabled-property and None-dropping rules;
+# a client write reaches the elements of a disabled property too (C06.KEY has a disabled property in its world)
+IMPORTS = [('C07', 'C07.DISABLED'), ('C07', 'C07.BRANCH'), ('C06', 'C06.KEY')]
 
 RULES = [
     ("C14.WRITE", rule_write, "set_value: one Write(self, value) raised before any store; assignment iff not vetoed"),
